@@ -2261,7 +2261,7 @@ class Engine:
         if isinstance(container, (VArr, VRow)) and (isinstance(x, int) or (is_z3(x) and z3.is_int(x))) and container.arr.sort().range() == z3.IntSort():
             k = z3.Int('k!in')
             return z3.Exists([k], z3.And(0 <= k, k < toz(container.length), z3.Select(container.arr, k) == toz(x)))
-        if isinstance(container, VOpaque):
+        if isinstance(container, VOpaque) or (isinstance(container, VStr) and isinstance(x, str)):
             return self.fresh('opaque_in', z3.BoolSort())     # content not modelled: either answer
         if isinstance(container, VArr2) and container.present is not None:
             return z3.Select(container.present, toz(x))
@@ -2451,6 +2451,28 @@ class Engine:
                     ast.fix_missing_locations(stripped)
                     self.keep_alive = getattr(self, 'keep_alive', []) + [stripped]
                     return self.ev_ListComp(stripped, e2)
+        if len(e.generators) == 1 and len(e.generators[0].ifs) == 1 and isinstance(e.generators[0].target, ast.Name) \
+                and isinstance(e.elt, ast.Name) and e.elt.id == e.generators[0].target.id and not getattr(self, 'in_spec', False):
+            # [x for x in A if cond(x)] over an int list: SOME list of elements satisfying cond, empty exactly when no element of A does
+            # (enough for the `len(...) > 0` idiom; order and multiplicity are not modelled)
+            g0 = e.generators[0]
+            itv = self.eval_iter(g0.iter, env)
+            if isinstance(itv, (VArr, VRow)) and itv.arr.sort().range() == z3.IntSort():
+                def cond_at(val):
+                    e2 = dict(env)
+                    e2[g0.target.id] = val
+                    self.generic_elem = getattr(self, 'generic_elem', 0) + 1
+                    try:
+                        return toz(as_bool(self.eval(g0.ifs[0], e2)))
+                    finally:
+                        self.generic_elem -= 1
+                t = z3.Int('t!flt')
+                n = toz(itv.length)
+                out = VArr(self.fresh('filtered_len'), self.fresh('filtered', itv.arr.sort()))
+                self.pc.append(z3.And(out.length >= 0, out.length <= zmax(n, z3.IntVal(0))))
+                self.pc.append((out.length == 0) == z3.ForAll([t], z3.Implies(z3.And(0 <= t, t < n), z3.Not(cond_at(z3.Select(itv.arr, t))))))
+                self.pc.append(z3.ForAll([t], z3.Implies(z3.And(0 <= t, t < out.length), cond_at(z3.Select(out.arr, t)))))
+                return out
         if len(e.generators) != 1 or e.generators[0].ifs:
             raise Unsupported('comprehension shape')
         g = e.generators[0]
@@ -3755,6 +3777,14 @@ def b_len(eng, node, v):
         return v.length
     if isinstance(v, VStr):
         return specs.slen(v.term)
+    if isinstance(v, str):
+        if v.startswith('<'):
+            n = eng.fresh('text_len')         # a text whose content is not modelled: some length
+            eng.pc.append(n >= 0)
+            return n
+        return len(v)
+    if is_z3(v) and v.sort() == z3.StringSort():
+        return z3.Length(v)
     if isinstance(v, VStrs):
         return specs.sslen(v.term)
     if isinstance(v, VSet2):
@@ -4313,7 +4343,12 @@ def lm_str_pred(eng, node, o, *a):
 
 
 def lm_readlines(eng, node, o):
-    return VStrs(eng.fresh('lines', specs.SSeq))
+    lines = eng.fresh('lines', specs.SSeq)
+    # file.readlines() never returns an empty string: every line holds at least its newline (or, for the last one, a character)
+    i = z3.Int('i!rl')
+    eng.pc.append(z3.ForAll([i], z3.Implies(z3.And(0 <= i, i < specs.sslen(lines)), specs.slen(specs.ssget(lines, i)) >= 1),
+                            patterns=[specs.ssget(lines, i)]))
+    return VStrs(lines)
 
 
 def lib_random_randint(eng, node, a, b):
